@@ -31,7 +31,7 @@ import (
 	"verifharness/vk"
 )
 
-const rule = "crash points: appender kind (File, RollingFile, Console to an inherited descriptor; through Logger or the File/Console/RollingFile logger kinds) x layout x 1-4 goroutines x N calls each x crash after the K-th acknowledged call (K in 1..G*N) x crash mode (SIGKILL from the parent, os.Exit(0), os.Exit(3)); non-trivial = K < G*N with G >= 2; distinct by (kind, layout, G, N, K, mode)"
+const rule = "crash points: appender kind (File, RollingFile, Console to an inherited descriptor; through Logger or the File/Console/RollingFile logger kinds) x layout x 1-4 goroutines x N calls each x crash after the K-th acknowledged call (K in 1..G*N) x crash mode (SIGKILL from the parent, os.Exit(0), os.Exit(3)); rolling kinds also with the calls straddling a real rotation boundary and the crash at the end; non-trivial = (K < G*N or straddling) with G >= 2; distinct by (kind, layout, G, N, K, mode)"
 
 type spec struct {
 	Kind   string // file | rolling | console | filelogger | rollinglogger | consolelogger
@@ -41,10 +41,13 @@ type spec struct {
 	Mode   string // kill | exit0 | exit3
 	Dir    string
 	Pad    int
+	// Straddle (rolling kinds): the goroutines start just before a rotation boundary and keep
+	// logging until N calls are done and the boundary lies 3 ms back; the crash comes at the end (K=0)
+	Straddle bool
 }
 
 func (s spec) String() string {
-	return fmt.Sprintf("kind=%s layout=%s G=%d N=%d K=%d mode=%s pad=%d", s.Kind, s.Layout, s.G, s.N, s.K, s.Mode, s.Pad)
+	return fmt.Sprintf("kind=%s layout=%s G=%d N=%d K=%d mode=%s pad=%d straddle=%v", s.Kind, s.Layout, s.G, s.N, s.K, s.Mode, s.Pad, s.Straddle)
 }
 
 var tagT = log.RegisterTag("_c20_t")
@@ -88,21 +91,50 @@ func TestC20_Child(t *testing.T) {
 	case "consolelogger":
 		m["appender.unused.type"] = "Discard"
 		m["logger.l.type"], m["logger.l.layout.type"] = "Console", s.Layout
+	case "file+loggerlayout": // the logger formats, the appender receives bytes
+		m["appender.a.type"], m["appender.a.fileDir"], m["appender.a.fileName"] = "File", s.Dir, "out.log"
+		m["logger.l.type"], m["logger.l.appenderRef.ref"], m["logger.l.layout.type"] = "Logger", "a", s.Layout
+	case "rolling+loggerlayout":
+		m["appender.a.type"], m["appender.a.fileDir"], m["appender.a.fileName"] = "RollingFile", s.Dir, "out.log"
+		m["appender.a.rotation"], m["appender.a.maxAge"] = "1s", "10"
+		m["logger.l.type"], m["logger.l.appenderRef.ref"], m["logger.l.layout.type"] = "Logger", "a", s.Layout
+	case "console+loggerlayout":
+		m["appender.a.type"] = "Console"
+		m["logger.l.type"], m["logger.l.appenderRef.ref"], m["logger.l.layout.type"] = "Logger", "a", s.Layout
 	}
 	if err := log.Refresh(m); err != nil {
 		fmt.Fprintln(os.Stderr, "C20-CHILD-REFRESH-FAILED", err)
 		os.Exit(8)
 	}
+	var from, until time.Time
+	if s.Straddle {
+		// the goroutines need some tens of milliseconds of running before each owns a processor:
+		// they spin from 80 ms before the boundary and log from 4 ms before it to 25 ms after it
+		// (the rotation itself can take milliseconds: it syncs the file it retires)
+		now := time.Now()
+		boundary := now.Truncate(time.Second).Add(time.Second)
+		time.Sleep(boundary.Sub(now) - 80*time.Millisecond)
+		from, until = boundary.Add(-4*time.Millisecond), boundary.Add(25*time.Millisecond)
+	}
 	var acks atomic.Int64
 	var wg sync.WaitGroup
+	returned := make([]int, s.G)
 	for g := 0; g < s.G; g++ {
 		wg.Add(1)
 		go func() {
 			defer wg.Done()
-			for i := 0; i < s.N; i++ {
+			for s.Straddle && time.Now().Before(from) {
+			}
+			for i := 0; i < s.N || (s.Straddle && i < 50000 && time.Now().Before(until)); i++ {
 				pad := strings.Repeat(string(rune('a'+(g+i)%26)), (s.Pad*(i+1))%3000)
 				crc := crc32.ChecksumIEEE([]byte(strconv.Itoa(g) + "/" + strconv.Itoa(i) + "/" + pad))
 				log.Info(context.Background(), tagT, log.Int("g", g), log.Int("seq", i), log.String("pad", pad), log.Uint("crc", crc))
+				if s.Straddle {
+					// the crash comes after the last call: the returned calls are reported together
+					// at the end, which keeps the goroutines dense around the boundary
+					returned[g]++
+					continue
+				}
 				// the call has returned: acknowledge with one direct write(2)
 				_, _ = ack.Write([]byte(fmt.Sprintf("%d %d\n", g, i)))
 				if n := acks.Add(1); int(n) == s.K {
@@ -118,6 +150,23 @@ func TestC20_Child(t *testing.T) {
 	}
 	wg.Wait()
 	// no Stop / Destroy on purpose: leaving without flushing is the point
+	if s.Straddle {
+		var sb strings.Builder
+		for g, n := range returned {
+			for i := 0; i < n; i++ {
+				fmt.Fprintf(&sb, "%d %d\n", g, i)
+			}
+		}
+		_, _ = ack.Write([]byte(sb.String()))
+	}
+	if s.K == 0 {
+		switch s.Mode {
+		case "exit3":
+			os.Exit(3)
+		case "kill":
+			_, _ = ack.Write([]byte("END\n"))
+		}
+	}
 	if s.Mode == "kill" {
 		time.Sleep(30 * time.Second) // wait to be killed
 	}
@@ -156,6 +205,10 @@ func runCrashPoint(s spec) (err error, acked int) {
 		defer close(doneRead)
 		sc := bufio.NewScanner(pr)
 		for sc.Scan() {
+			if sc.Text() == "END" {
+				_ = cmd.Process.Signal(syscall.SIGKILL)
+				continue
+			}
 			var a ackT
 			if _, err := fmt.Sscanf(sc.Text(), "%d %d", &a.g, &a.seq); err == nil {
 				acks = append(acks, a)
@@ -177,13 +230,13 @@ func runCrashPoint(s spec) (err error, acked int) {
 	if strings.Contains(stderr.String(), "C20-CHILD-REFRESH-FAILED") {
 		return fmt.Errorf("VERIF-INCONCLUSIVE: child could not configure logging: %s", stderr.String()), 0
 	}
-	if len(acks) < min(s.K, s.G*s.N) {
+	if need := s.G * s.N; len(acks) < min(s.K, need) || (s.K == 0 && len(acks) < need) {
 		return fmt.Errorf("VERIF-INCONCLUSIVE: child acknowledged %d calls, crash point was %d: %s", len(acks), s.K, stderr.String()), len(acks)
 	}
 	// read the target
 	var data []byte
 	switch s.Kind {
-	case "console", "consolelogger":
+	case "console", "consolelogger", "console+loggerlayout":
 		data, _ = os.ReadFile(stdoutPath)
 	default:
 		ents, _ := os.ReadDir(s.Dir)
@@ -227,14 +280,19 @@ func TestC20_CrashPoints(t *testing.T) {
 		for i := 0; i < B; i++ {
 			l := fmt.Sprintf("s%d", i)
 			s := spec{
-				Kind:   rapid.SampledFrom([]string{"file", "rolling", "console", "filelogger", "rollinglogger", "consolelogger"}).Draw(t, l+"kind"),
+				Kind:   rapid.SampledFrom([]string{"file", "rolling", "console", "filelogger", "rollinglogger", "consolelogger", "file+loggerlayout", "rolling+loggerlayout", "console+loggerlayout", "rolling", "rollinglogger"}).Draw(t, l+"kind"),
 				Layout: rapid.SampledFrom([]string{"TextLayout", "JSONLayout"}).Draw(t, l+"layout"),
 				G:      rapid.IntRange(1, 4).Draw(t, l+"G"),
-				N:      rapid.SampledFrom([]int{1, 5, 30, 200}).Draw(t, l+"N"),
+				N:      rapid.SampledFrom([]int{1, 5, 30, 200, 1500}).Draw(t, l+"N"),
 				Mode:   rapid.SampledFrom([]string{"kill", "exit0", "exit3"}).Draw(t, l+"mode"),
 				Pad:    rapid.SampledFrom([]int{0, 7, 131, 997}).Draw(t, l+"pad"),
 			}
 			s.K = rapid.IntRange(1, s.G*s.N).Draw(t, l+"K")
+			if strings.Contains(s.Kind, "rolling") && rapid.IntRange(0, 2).Draw(t, l+"straddle") > 0 {
+				s.Straddle, s.K = true, 0
+				s.G = rapid.SampledFrom([]int{4, 2, 8, 3}).Draw(t, l+"G2")
+				s.N = min(s.N, 30)
+			}
 			specs = append(specs, s)
 		}
 		batch++
@@ -258,7 +316,10 @@ func TestC20_CrashPoints(t *testing.T) {
 			vk.Eval()
 			vk.Class("kind:" + s.Kind)
 			vk.Class("mode:" + s.Mode)
-			if s.K < s.G*s.N && s.G >= 2 {
+			if s.Straddle {
+				vk.Class("straddles-rotation-boundary")
+			}
+			if (s.K < s.G*s.N || s.Straddle) && s.G >= 2 {
 				vk.NonTrivial(s.String())
 			}
 			vk.Sample(map[string]any{"crash_point": s.String(), "acknowledged": acked[i]})
